@@ -46,10 +46,12 @@ def variants(case, idx, rnd, n):
         cls = "Signal"
         if kind in ("c16", "c8") and len(case["ssh"]) >= 1 and rnd.random() < 0.4:
             cls = "BasebandSignal"
-        forms = ["float", "list", "quantity", "float"] + (["int"] if whole else [])
+        forms = ["float", "list", "quantity", "np", "np"]
         out.append({"kind": kind, "cls": cls, "form": rnd.choice(forms), "dask": rnd.random() < 0.2,
                     "rate": rnd.randrange(len(sl.RATES)), "start": rnd.random() < 0.6, "hist": rnd.randrange(3),
-                    "negzero": rnd.random() < 0.35})
+                    "negzero": rnd.random() < 0.35,
+                    # memory layout and dtype of the shift argument, Dask chunking of the sample axes
+                    "layout": rnd.choice(sl.LAYOUTS), "sdtype": rnd.randrange(1 << 16), "chunks": rnd.randrange(5)})
     return out
 
 
@@ -60,14 +62,20 @@ def shift_arg(case, var, z):
     shsh = tuple(case["shsh"])
     arr = S.reshape(shsh) if shsh else float(S[0])
     form = var["form"]
+    lay = var.get("layout", "C")
     if form == "float":
-        return arr
-    if form == "int":
-        return int(arr) if not shsh else arr.astype(np.int64)
+        return sl.relayout(arr, lay) if shsh else arr
+    if form in ("np", "int"):
+        # every NumPy dtype that holds the values exactly: float16/32/64, signed and (for non-negative values) unsigned ints
+        names = sl.dtypes_for(S.tolist()) if form == "np" else ["int64"]
+        d = np.dtype(names[var.get("sdtype", 0) % len(names)])
+        return sl.relayout(arr.astype(d), lay) if shsh else d.type(arr)
     if form == "list":
         return arr.tolist() if shsh else float(arr)
     if form == "quantity":
         q = (arr / z.sample_rate).to(u.s)
+        if shsh:
+            q = sl.relayout(q, lay)
         back = np.asarray((q * z.sample_rate).to_value(u.one), dtype=np.float64).ravel()
         want = S.ravel()
         for b, w in zip(back, want):
@@ -87,7 +95,7 @@ def replay_case(tab, case, var):
     real = var["kind"] in REAL
     skip = ("dtype",) if var["kind"] in INTS else ()
     data, cols = sl.build_data(tab, N, ssh, real, KINDS[var["kind"]])
-    z = sl.make_signal(data, var["cls"], sl.RATES[var["rate"]], EPOCH if var["start"] else None, var["dask"])
+    z = sl.make_signal(data, var["cls"], sl.RATES[var["rate"]], EPOCH if var["start"] else None, var["dask"], chunks=var.get("chunks"))
     arg = shift_arg(case, var, z)
     info = {"form": var["form"]}
     if arg is None:
@@ -224,8 +232,6 @@ def run_sessions(chk, tab, pairs, rnd, limit, nvar):
     n = 0
     for i, (first, second) in enumerate(pairs):
         for var in variants(second, i, rnd, nvar):
-            if var["form"] == "int":
-                var["form"] = "float"
             table = sl.merge_tables(sub_table(tab, first), sub_table(tab, second))
             for step, case in enumerate((first, second)):
                 res, _ = replay_case(tab, case, var)
@@ -311,7 +317,7 @@ def probe_params(rnd, thorough):
         out.append({"N": N, "ssh": list(ssh), "shsh": list(shsh), "S": S, "kind": kind, "ks": ks,
                     "dask": rnd.random() < 0.15, "quantity": rnd.random() < 0.25,
                     "rate": rnd.randrange(len(sl.RATES)), "baseband": kind[0] == "c" and len(ssh) >= 1 and rnd.random() < 0.3,
-                    "again": i % 2 == 1})
+                    "again": i % 2 == 1, "layout": rnd.choice(sl.LAYOUTS), "chunks": rnd.randrange(5)})
     return out
 
 
@@ -326,8 +332,8 @@ def drive_probe(p, eid):
         th = 2 * np.pi * ((k * n) % N) / N
         cols.append(sl.REAL_DC + np.cos(th) if real else np.exp(1j * th))
     data = np.stack(cols, axis=1).reshape((N,) + ssh).astype(KINDS[p["kind"]])
-    z = sl.make_signal(data, "BasebandSignal" if p["baseband"] else "Signal", sl.RATES[p["rate"]], EPOCH, p["dask"])
-    arr = np.array(p["S"], dtype=np.float64).reshape(shsh) if shsh else float(p["S"][0])
+    z = sl.make_signal(data, "BasebandSignal" if p["baseband"] else "Signal", sl.RATES[p["rate"]], EPOCH, p["dask"], chunks=p.get("chunks"))
+    arr = sl.relayout(np.array(p["S"], dtype=np.float64).reshape(shsh), p.get("layout", "C")) if shsh else float(p["S"][0])
     arg = arr
     if p["quantity"]:
         arg = (arr / z.sample_rate).to(u.s)
